@@ -265,6 +265,49 @@ func oneRun(r *rep.Report, spec runSpec) {
 				return // the cron is wedged: Kill would block, too
 			}
 		}
+	case "recurring-at-the-limit":
+		// a cron with room for two pending jobs; while the every-second job's callback runs (it is off
+		// the timeline then) two other jobs are added.  Nobody removed the recurring job: it goes on.
+		{
+			small, err := cron.NewCron(cron.NewCronBroadcaster(), 150*time.Millisecond, "verif-small", 2)
+			if err != nil {
+				r.Violate("", "NewCron failed: "+err.Error(), nil)
+				return
+			}
+			small.Start(ctx)
+			var fired int64
+			started := make(chan bool, 100)
+			release := make(chan bool, 100)
+			small.Add(ctx, "every", "* * * * * * *", func(time.Time) error {
+				atomic.AddInt64(&fired, 1)
+				started <- true
+				<-release
+				return nil
+			})
+			got := false
+			select {
+			case <-started:
+				got = true
+			case <-time.After(3 * time.Second):
+			}
+			nop := func(time.Time) error { return nil }
+			e1 := small.Add(ctx, "x", "+1h", nop)
+			e2 := small.Add(ctx, "y", "+1h", nop)
+			for i := 0; i < 100; i++ {
+				release <- true
+			}
+			time.Sleep(3500 * time.Millisecond)
+			n := atomic.LoadInt64(&fired)
+			found, _ := small.Rem(ctx, "every")
+			small.Kill(ctx)
+			r.Count("recurring_at_the_limit_runs", 1)
+			wit := rep.J{"run": spec, "limit": 2, "first_occurrence_seen": got, "add_x": drv.ErrStr(e1), "add_y": drv.ErrStr(e2), "fires_of_the_recurring_job": n, "still_there_when_removed": found}
+			if !canaryOK() {
+				r.Inconclusive("canary late")
+			} else if !got || n < 3 || !found {
+				r.Violate("", "a recurring job stopped firing (or was gone) after other jobs filled the cron to its limit while its callback ran", wit)
+			}
+		}
 	case "no-occurrence-schedule":
 		// a cron expression without any occurrence (30 February) and one whose next occurrence is
 		// years away: accepted or refused, the job must not fire now
@@ -551,7 +594,7 @@ func main() {
 	e := rep.GetEnv()
 	r := rep.New(e)
 	r.Note("hooks_compiled_in", hook.Enabled())
-	patterns := []string{"rem-head-then-quiet", "replace-head-later", "add-earlier-than-head", "add-during-suspend", "pause", "rem-recurring-during-run", "replace-recurring-during-run", "replace-recurring-both-running", "rem-readd-recurring-both-running", "recurring-callback-error", "command-burst", "no-occurrence-schedule", "concurrent-adds-one-id", "recurring", "random", "random", "random"}
+	patterns := []string{"rem-head-then-quiet", "replace-head-later", "add-earlier-than-head", "add-during-suspend", "pause", "rem-recurring-during-run", "replace-recurring-during-run", "replace-recurring-both-running", "rem-readd-recurring-both-running", "recurring-callback-error", "command-burst", "recurring-at-the-limit", "no-occurrence-schedule", "concurrent-adds-one-id", "recurring", "random", "random", "random"}
 	rounds := e.Pick(1, 4)
 	var wg sync.WaitGroup
 	for round := 0; round < rounds; round++ {
